@@ -39,6 +39,16 @@ type c16Scale struct {
 	// Map and Unmap), then its exported Min/Max fields are assigned the case's
 	// domain: a scale must follow its current Min/Max (no stale derived state).
 	How int `json:"how"`
+	// Log: the Base field / the base given to NewLog (ticks only: Map and
+	// Unmap do not depend on it). 0 stands for 10.
+	Base int `json:"base,omitempty"`
+}
+
+func c16Base(sc c16Scale) int {
+	if sc.Base >= 2 {
+		return sc.Base
+	}
+	return 10
 }
 
 type c16Case struct {
@@ -81,6 +91,9 @@ func c16Name(sc c16Scale) string {
 }
 
 func c16Desc(sc c16Scale) string {
+	if sc.Log {
+		return fmt.Sprintf("Log{Min:%v,Max:%v,Base:%d,Clamp:%v}", float64(sc.Min), float64(sc.Max), c16Base(sc), sc.Clamp)
+	}
 	return fmt.Sprintf("%s{Min:%v,Max:%v,Clamp:%v}", c16Name(sc), float64(sc.Min), float64(sc.Max), sc.Clamp)
 }
 
@@ -91,6 +104,7 @@ func c16Build(w *mon.W, sc c16Scale, bad func(kind, msg string)) (q scale.Quanti
 	min, max := float64(sc.Min), float64(sc.Max)
 	name := c16Name(sc)
 	how := sc.How
+	base := c16Base(sc)
 	if how >= 5 {
 		// history: other domain first, then the fields are re-assigned
 		w.Hit("domain-reassigned-after-construction")
@@ -100,9 +114,9 @@ func c16Build(w *mon.W, sc c16Scale, bad func(kind, msg string)) (q scale.Quanti
 			if min < 0 {
 				sign = -1
 			}
-			s, err := scale.NewLog(sign*3, sign*7e5, 10)
+			s, err := scale.NewLog(sign*3, sign*7e5, base)
 			if err != nil {
-				bad("newlog-reject", fmt.Sprintf("NewLog(%v,%v,10) rejected: %v", sign*3, sign*7e5, err))
+				bad("newlog-reject", fmt.Sprintf("NewLog(%v,%v,%d) rejected: %v", sign*3, sign*7e5, base, err))
 				return nil, false
 			}
 			obj = &s
@@ -143,16 +157,16 @@ func c16Build(w *mon.W, sc c16Scale, bad func(kind, msg string)) (q scale.Quanti
 		var s scale.Log
 		var err error
 		w.Eval("NewLog")
-		if p, v := mon.Call(func() { s, err = scale.NewLog(a, b, 10) }); p {
-			bad("panic", fmt.Sprintf("NewLog(%v,%v,10) panicked: %v", a, b, v))
+		if p, v := mon.Call(func() { s, err = scale.NewLog(a, b, base) }); p {
+			bad("panic", fmt.Sprintf("NewLog(%v,%v,%d) panicked: %v", a, b, base, v))
 			return nil, false
 		}
 		if err != nil {
-			bad("newlog-reject", fmt.Sprintf("NewLog(%v,%v,10) rejected a finite range that excludes 0: %v", a, b, err))
+			bad("newlog-reject", fmt.Sprintf("NewLog(%v,%v,%d) rejected a finite range that excludes 0: %v", a, b, base, err))
 			return nil, false
 		}
 		if !((s.Min == min && s.Max == max) || (s.Min == max && s.Max == min)) {
-			bad("newlog-domain", fmt.Sprintf("NewLog(%v,%v,10) returned the domain [%v,%v]", a, b, s.Min, s.Max))
+			bad("newlog-domain", fmt.Sprintf("NewLog(%v,%v,%d) returned the domain [%v,%v]", a, b, base, s.Min, s.Max))
 			return nil, false
 		}
 		// a correct constructor may keep either order; the case is about
@@ -161,7 +175,7 @@ func c16Build(w *mon.W, sc c16Scale, bad func(kind, msg string)) (q scale.Quanti
 		lg = &s
 		q = lg
 	default:
-		lg = &scale.Log{Min: min, Max: max, Base: 10}
+		lg = &scale.Log{Min: min, Max: max, Base: base}
 		if how == 0 {
 			lg.Clamp = sc.Clamp
 		}
@@ -196,11 +210,16 @@ func c16Clamp(y float64) float64 {
 
 func c16Finite(x float64) bool { return !math.IsNaN(x) && !math.IsInf(x, 0) }
 
-// c16InRangeX says whether a Log argument is inside the quantified range
-// 1e-14 <= |x| <= 1e14.
-func c16InRangeX(x float64) bool {
+const c16MinNormal = 0x1p-1022
+
+// c16HitExtreme records the hostile classes of a judged Log argument far
+// from every domain: near the largest finite number, near the smallest
+// normal number, subnormal.
+func c16HitExtreme(w *mon.W, x float64) {
 	a := math.Abs(x)
-	return a >= 1e-14*(1-1e-12) && a <= 1e14*(1+1e-12)
+	w.HitIf(a > 1e300, "Log:x-near-MaxFloat64")
+	w.HitIf(a < 1e-300 && a >= c16MinNormal, "Log:x-near-smallest-normal")
+	w.HitIf(a < c16MinNormal, "Log:x-subnormal")
 }
 
 type c16Pt struct {
@@ -244,9 +263,22 @@ func c16JudgeScale(w *mon.W, c c16Case) {
 	w.HitIf(nearDeg, name+":near-degenerate")
 	w.HitIf(sc.Clamp, name+":clamp-on")
 	w.HitIf(sc.How >= 3 && sc.Log && min < max, "Log:via-NewLog")
+	w.HitIf(sc.Log && c16Base(sc) != 10, "Log:base-not-10")
+	// Inside the unresolvable window the end points are still judged exactly
+	// when the logarithms of |Min| and |Max| are at least 3 ulps apart (in
+	// any base, ref.Separated): numerator and denominator of Map are then
+	// the same non-zero expression at Max and the numerator is an exact
+	// zero at Min for every implementation with a sub-ulp logarithm.
+	collide := unres && !R.Separated()
 	if unres {
 		w.Note("Log:unresolvable-domain")
+		w.HitIf(!collide, "Log:unresolvable-but-separated")
+		if collide {
+			w.Note("Log:unresolvable-logs-may-collide")
+		}
 	}
+	type xg struct{ x, got float64 }
+	var narrow []xg // Map events inside the unresolvable window
 
 	call := func(op string, x float64, f func(float64) float64, xs, ys []float64) (float64, bool) {
 		var got float64
@@ -265,10 +297,6 @@ func c16JudgeScale(w *mon.W, c c16Case) {
 			continue
 		}
 		one := []float64{x}
-		if sc.Log && x != 0 && !c16InRangeX(x) {
-			w.Note("skipped:|x|-outside-1e±14")
-			continue
-		}
 		got, ok := call("Map", x, q.Map, one, nil)
 		if !ok {
 			continue
@@ -298,15 +326,61 @@ func c16JudgeScale(w *mon.W, c c16Case) {
 			// but a valid input of a non-degenerate domain must not map to NaN
 			if math.IsNaN(got) {
 				viol("log-unresolvable-nan", fmt.Sprintf("%s.Map(%v)=NaN for a valid input (domain narrower than the logarithm resolves)", desc, x), one, nil)
-			} else {
+				continue
+			}
+			if collide {
+				w.Ambiguous()
+				continue
+			}
+			switch {
+			case x == min:
+				w.Hit("Log:narrow-at-Min")
+				if got != 0 {
+					viol("narrow-endpoint", fmt.Sprintf("%s.Map(Min)=%.17g, want 0: Min!=Max and their logarithms are more than 3 ulps apart (%.17g, %.17g)", desc, got, math.Log(math.Abs(min)), math.Log(math.Abs(max))), one, nil)
+				}
+			case x == max:
+				w.Hit("Log:narrow-at-Max")
+				if got != 1 {
+					viol("narrow-endpoint", fmt.Sprintf("%s.Map(Max)=%.17g, want 1: Min!=Max and their logarithms are more than 3 ulps apart (%.17g, %.17g)", desc, got, math.Log(math.Abs(min)), math.Log(math.Abs(max))), one, nil)
+				}
+			default:
 				w.Ambiguous()
 			}
+			if sc.Clamp && !(got >= 0 && got <= 1) {
+				viol("clamp-confine", fmt.Sprintf("%s.Map(%v)=%v is outside [0,1]", desc, x, got), one, nil)
+			}
+			narrow = append(narrow, xg{x, got})
 			continue
 		}
 		yb := R.MapBig(x)
 		y := ref.F64(yb)
 		if math.Abs(y) > 101.5 {
 			w.Note("skipped:x-beyond-100-widths")
+			continue
+		}
+		if sc.Log && math.Abs(x) < c16MinNormal {
+			// Subnormal x: the platform logarithm need not be accurate
+			// there (amd64's math.Log is off by up to 35 for subnormal
+			// arguments), so only a bracket is required: Map(x) lies between
+			// the reference at x and the reference at the smallest normal
+			// number of the same sign (Map is monotone).
+			y0 := ref.F64(R.MapBig(math.Copysign(c16MinNormal, x)))
+			lo, hi := math.Min(y, y0), math.Max(y, y0)
+			if sc.Clamp {
+				lo, hi = c16Clamp(lo), c16Clamp(hi)
+			}
+			c16HitExtreme(w, x)
+			tol := R.MapTol(x, y)
+			e := math.Max(lo-got, got-hi) // NaN stays NaN
+			if e < 0 {
+				e = 0
+			}
+			if !w.Err(name+".Map(subnormal)", e, tol) {
+				viol("map-subnormal", fmt.Sprintf("%s.Map(%v)=%.17g is not between the affine map at x, %.17g, and at the smallest normal number, %.17g (tol %.3g)", desc, x, got, y, y0, tol), one, nil)
+			}
+			if sc.Clamp && !(got >= 0 && got <= 1) {
+				viol("clamp-confine", fmt.Sprintf("%s.Map(%v)=%v is outside [0,1]", desc, x, got), one, nil)
+			}
 			continue
 		}
 		ye := y
@@ -318,6 +392,9 @@ func c16JudgeScale(w *mon.W, c c16Case) {
 		w.HitIf(x == min, name+":at-Min")
 		w.HitIf(x == max, name+":at-Max")
 		w.HitIf(y < 0 || y > 1, name+":beyond-domain")
+		if sc.Log {
+			c16HitExtreme(w, x)
+		}
 		tol := R.MapTol(x, y)
 		mapOK := w.Err(name+".Map", math.Abs(got-ye), tol)
 		if !mapOK {
@@ -339,12 +416,24 @@ func c16JudgeScale(w *mon.W, c c16Case) {
 		pts = append(pts, c16Pt{x, y, ye, got, tol, yb})
 		// x -> Map -> Unmap. With clamping on, the inverse law is claimed
 		// inside the domain only.
-		if mapOK && (!sc.Clamp || R.Inside(x)) {
+		// The quantifier bounds Unmap's argument to y in [-5,5]; farther out
+		// (x up to 100 widths away is quantified for Map only) a correct
+		// Unmap may overflow or lose precision in an intermediate, e.g.
+		// min*exp(y*width), so the round trip is not judged there.
+		if mapOK && math.Abs(y) > 5 {
+			w.Note("roundtrip-not-judged:|Map(x)|>5")
+		}
+		if mapOK && math.Abs(y) <= 5 && (!sc.Clamp || R.Inside(x)) {
 			back, ok := call("Unmap", got, q.Unmap, one, nil)
 			if !ok {
 				continue
 			}
 			tolRT := R.Carry(tol, x) + R.UnmapTol(y, x)
+			if math.IsInf(math.Abs(x)+tolRT, 0) {
+				// a correctly rounded inverse may overflow here
+				w.Note("skipped:roundtrip-at-overflow-threshold")
+				continue
+			}
 			if !w.Err(name+".Unmap∘Map", math.Abs(back-x), tolRT) {
 				viol("roundtrip-x", fmt.Sprintf("%s: Unmap(Map(%v))=%.17g (Map=%.17g), off by %.3g, tol %.3g", desc, x, back, got, math.Abs(back-x), tolRT), one, nil)
 			}
@@ -385,6 +474,20 @@ func c16JudgeScale(w *mon.W, c c16Case) {
 		}
 	}
 
+	// weak monotonicity inside the unresolvable window (Map is monotone in x
+	// on the valid half line, increasing iff Min<Max, for both signs)
+	sort.Slice(narrow, func(i, j int) bool { return narrow[i].x < narrow[j].x })
+	for i := 0; i+1 < len(narrow); i++ {
+		a, b := narrow[i], narrow[i+1]
+		if a.x == b.x {
+			continue
+		}
+		w.Note("law:weakly-monotone-pair(narrow)")
+		if good := (min < max && a.got <= b.got) || (min > max && a.got >= b.got); !good {
+			viol("narrow-monotone", fmt.Sprintf("%s: Map(%v)=%.17g, Map(%v)=%.17g: order reversed (Min!=Max, logarithms of the end points more than 3 ulps apart)", desc, a.x, a.got, b.x, b.got), []float64{a.x, b.x}, nil)
+		}
+	}
+
 	// laws over the recorded Map events
 	sort.Slice(pts, func(i, j int) bool { return pts[i].x < pts[j].x })
 	for i := 0; i+1 < len(pts); i++ {
@@ -415,7 +518,7 @@ func c16JudgeScale(w *mon.W, c c16Case) {
 		}
 	}
 
-	h := mon.NewHasher().S(name).F(min).F(max).I(sc.How)
+	h := mon.NewHasher().S(name).F(min).F(max).I(sc.How).I(sc.Base)
 	if sc.Clamp {
 		h = h.I(1)
 	}
@@ -436,8 +539,8 @@ func c16JudgeQQ(w *mon.W, c c16Case) {
 	if err1 != nil || err2 != nil {
 		return
 	}
-	if RS.Degenerate() || RD.Degenerate() || RS.Unresolvable() || RD.Unresolvable() {
-		w.Note("skipped:qq-degenerate-or-unresolvable")
+	if RS.Unresolvable() || RD.Unresolvable() {
+		w.Note("skipped:qq-unresolvable")
 		return
 	}
 	desc := fmt.Sprintf("QQ{Src:%s,Dest:%s}", c16Desc(S), c16Desc(D))
@@ -456,15 +559,30 @@ func c16JudgeQQ(w *mon.W, c c16Case) {
 	w.HitIf(S.Clamp, "qq:src-clamp")
 	w.HitIf(D.Clamp, "qq:dest-clamp")
 	w.HitIf(float64(S.Min) > float64(S.Max) || float64(D.Min) > float64(D.Max), "qq:reversed")
+	// A degenerate domain maps every valid input to 0.5 and unmaps every y
+	// to Min(=Max): the composition is Dest.Unmap(0.5) for a degenerate
+	// source, Dest.Min for a degenerate destination (not invertible).
+	w.HitIf(RS.Degenerate(), "qq:src-degenerate")
+	w.HitIf(RD.Degenerate(), "qq:dest-degenerate")
+	w.HitIf(RS.Degenerate() && RD.Degenerate(), "qq:both-degenerate")
 
 	// one direction: from scale F (reference RF, clamp cf) to scale T.
 	dir := func(op, inv string, f, finv func(float64) float64, RF, RT *ref.ScaleRef, F, T c16Scale, x float64, mk func(float64) ([]float64, []float64)) {
-		if !c16Finite(x) || !RF.Valid(x) || (F.Log && !c16InRangeX(x)) {
+		if !c16Finite(x) || !RF.Valid(x) {
 			return
 		}
 		xs, ys := mk(x)
-		yb := RF.MapBig(x)
+		var yb *big.Float
+		tolY := 0.0
+		if RF.Degenerate() {
+			yb = ref.NF(0.5)
+		} else {
+			yb = RF.MapBig(x)
+		}
 		y := ref.F64(yb)
+		if !RF.Degenerate() {
+			tolY = RF.MapTol(x, y)
+		}
 		if math.Abs(y) > 5 {
 			w.Note("skipped:qq-|y|>5")
 			return
@@ -483,7 +601,6 @@ func c16JudgeQQ(w *mon.W, c c16Case) {
 		}
 		ye := ref.F64(yeb)
 		xp := ref.F64(RT.UnmapBig(yeb))
-		tolY := RF.MapTol(x, y)
 		tolXp := RT.Carry(tolY, xp) + RT.UnmapTol(ye, xp)
 		var got float64
 		w.Eval(op)
@@ -498,6 +615,9 @@ func c16JudgeQQ(w *mon.W, c c16Case) {
 		// mutual inverse, where no clamping took place
 		if outside && (F.Clamp || T.Clamp) {
 			return
+		}
+		if RF.Degenerate() || RT.Degenerate() {
+			return // a constant map has no inverse
 		}
 		if !RT.Valid(got) {
 			return
@@ -565,7 +685,10 @@ func c16JudgeNewLog(w *mon.W, c c16Case) {
 		}
 		if !((s.Min == lo && s.Max == hi) || (s.Min == hi && s.Max == lo)) {
 			w.Violate("newlog-domain", fmt.Sprintf("%s returned the domain [%v,%v]", call, s.Min, s.Max), c)
+			return
 		}
+		w.HitIf(base != 2 && base != 10, "newlog-accept:base-not-2-or-10")
+		c16Spot(w, &s, call, c)
 		return
 	}
 	if err == nil {
@@ -575,6 +698,59 @@ func c16JudgeNewLog(w *mon.W, c c16Case) {
 	var re scale.RangeErr
 	if !errors.As(err, &re) {
 		w.Violate("newlog-errtype", fmt.Sprintf("%s returned an error of type %T (%v), not a RangeErr", call, err, err), c)
+	}
+}
+
+// c16Spot compares Map and Unmap of the scale an accepted NewLog call
+// returned with the reference map of the domain it reports (either order is a
+// correct answer of the constructor), at points derived from the domain only.
+func c16Spot(w *mon.W, s *scale.Log, call string, c c16Case) {
+	min, max := s.Min, s.Max
+	R, err := ref.NewScaleRef(true, min, max)
+	if err != nil || R.Unresolvable() {
+		return
+	}
+	if s.Clamp {
+		return // not what a constructor should hand out, but not excluded by the statement
+	}
+	desc := fmt.Sprintf("%s = Log{Min:%v,Max:%v,Base:%d}", call, min, max, s.Base)
+	w.Note("newlog:spot-checked")
+	xs := []float64{min, max, c16At(true, min, max, 0.5), c16At(true, min, max, 0.3), c16At(true, min, max, -1.5), c16At(true, min, max, 2.25)}
+	for _, x := range xs {
+		if !R.Valid(x) {
+			continue
+		}
+		var got float64
+		w.Eval("Log.Map")
+		if p, v := mon.Call(func() { got = s.Map(x) }); p {
+			w.Violate("panic", fmt.Sprintf("%s: Map(%v) panicked: %v", desc, x, v), c)
+			return
+		}
+		if R.Degenerate() {
+			if got != 0.5 {
+				w.Violate("degenerate", fmt.Sprintf("%s: Map(%v)=%v on a degenerate domain, want 0.5", desc, x, got), c)
+			}
+			continue
+		}
+		y := ref.F64(R.MapBig(x))
+		if math.Abs(y) > 101.5 {
+			continue
+		}
+		if tol := R.MapTol(x, y); !w.Err("Log.Map", math.Abs(got-y), tol) {
+			w.Violate("map", fmt.Sprintf("%s: Map(%v)=%.17g, the affine map gives %.17g (tol %.3g)", desc, x, got, y, tol), c)
+		}
+	}
+	for _, y := range []float64{0, 1, 0.5, 0.3, -1.5, 2.25} {
+		x := ref.F64(R.UnmapBig(ref.NF(y)))
+		var got float64
+		w.Eval("Log.Unmap")
+		if p, v := mon.Call(func() { got = s.Unmap(y) }); p {
+			w.Violate("panic", fmt.Sprintf("%s: Unmap(%v) panicked: %v", desc, y, v), c)
+			return
+		}
+		if tol := R.UnmapTol(y, x); !w.Err("Log.Unmap", math.Abs(got-x), tol) {
+			w.Violate("unmap", fmt.Sprintf("%s: Unmap(%v)=%.17g, the inverse affine map gives %.17g (tol %.3g)", desc, y, got, x, tol), c)
+		}
 	}
 }
 
@@ -629,7 +805,17 @@ func c16Domain(rng *mon.Rand, kind int, sameSign bool) (min, max float64) {
 		max = min * (1 + rng.Sign()*rng.LogUniform(1e-15, 0.5))
 	case 3: // near-degenerate
 		min = s1 * c16Mag(rng)
-		k := rng.PickI(1, 1, 1, 2, 3, 10)
+		// up to a few hundred ulps: a Log domain is unresolvable up to about
+		// 8(1+|ln Min|+|ln Max|) ulps
+		k := rng.PickI(1, 1, 1, 2, 3, 10, 24, 50, 100, rng.Range(4, 40), rng.Range(10, 300))
+		if rng.Intn(3) == 0 {
+			// logarithms of the end points t ulps apart, t in 1..6
+			u := math.Nextafter(math.Abs(min), math.Inf(1)) - math.Abs(min)
+			k = int(rng.Uniform(1, 6) * math.Abs(math.Log(math.Abs(min))) * ref.Eps * math.Abs(min) / u)
+			if k < 1 {
+				k = 1
+			}
+		}
 		if rng.Bool() {
 			k = -k
 		}
@@ -669,18 +855,18 @@ func c16Domain(rng *mon.Rand, kind int, sameSign bool) (min, max float64) {
 }
 
 // c16At returns the point at parameter t of the domain (affine parameter in
-// x, resp. in ln|x|), clipped to 1e-14..1e14 for Log.
+// x, resp. in ln|x|), clipped to the finite non-zero numbers for Log.
 func c16At(isLog bool, min, max, t float64) float64 {
 	if !isLog {
 		return min + t*(max-min)
 	}
 	lmin, lmax := math.Log(math.Abs(min)), math.Log(math.Abs(max))
 	a := math.Exp(lmin + t*(lmax-lmin))
-	if a < 1e-14 {
-		a = 1e-14
+	if a == 0 {
+		a = math.SmallestNonzeroFloat64
 	}
-	if a > 1e14 {
-		a = 1e14
+	if a > math.MaxFloat64 {
+		a = math.MaxFloat64
 	}
 	return math.Copysign(a, min)
 }
@@ -699,10 +885,11 @@ func c16Points(rng *mon.Rand, isLog bool, min, max float64, reach float64) []flo
 }
 
 func c16Run(r *mon.Run) {
-	r.Rule("Linear and Log domains with |Min|,|Max| in [1e-12,1e12] (generic, narrow, near-degenerate, degenerate, corners, symmetric/integers/decades, huge ratio; both orders; both signs for Log), Clamp on/off set by field, SetClamp or NewLog; x = Min, Max, their neighbours, inside, up to 100 widths outside (|x| in 1e±14 for Log), zero and wrong-sign x for Log; y in [-5,5]; QQ over the 4 pairings x 4 clamp settings; NewLog over a 12x12x11 grid of end points and bases plus random ones. Non-trivial: hits a class (reversed, negative, (near-)degenerate, clamp active, beyond domain, QQ pairing, NewLog branch); distinct by hash of (scale(s), points).")
+	r.Rule("Linear and Log domains with |Min|,|Max| in [1e-12,1e12] (generic, narrow, near-degenerate, degenerate, corners, symmetric/integers/decades, huge ratio; both orders; both signs for Log), Clamp on/off set by field, SetClamp or NewLog, Log bases 2, 3, 5, 10, 16; x = Min, Max, their neighbours, inside, up to 100 widths outside (for Log: widths in ln|x|, up to MaxFloat64 and down to the subnormals), zero and wrong-sign x for Log; y in [-5,5]; QQ over the 4 pairings x 4 clamp settings, with degenerate source and/or destination in 3 of 16 blocks; NewLog over a 12x12x11 grid of end points and bases plus random ones, Map/Unmap of every accepted scale spot-checked against the reference. Non-trivial: hits a class (reversed, negative, (near-)degenerate, clamp active, beyond domain, QQ pairing, NewLog branch); distinct by hash of (scale(s), points).")
 	r.Assume("reference: affine map in x / ln|x| in 384-bit arithmetic (own exp/log), self-tested at start-up",
 		"tolerances (policy b): Linear Unmap 8eps(|x|+(1+|y|)max(|Min|,|Max|)), Log Unmap relative 8eps(1+|y|)(1+|ln x|+|ln Min|+|ln Max|); Map: the same carried through the slope + 4eps|y|; round trips: sum of the two",
-		"Log domains with ln|Max|-ln|Min| <= 8eps(1+|ln Min|+|ln Max|) are unresolvable in double precision logarithms: Map values there are counted ambiguous and not judged",
+		"Log domains with ln|Max|-ln|Min| <= 8eps(1+|ln Min|+|ln Max|) are unresolvable in double precision logarithms: Map values there are counted ambiguous and not judged, except that when the logarithms of |Min| and |Max| are at least 3 ulps apart (ln|Max|-ln|Min| >= 3eps max|ln|, the same in every base), Map(Min)=0 and Map(Max)=1 exactly, [0,1] confinement under Clamp and weak monotonicity are still required",
+		"QQ with a degenerate scale: a degenerate source maps every valid input to 0.5, so QQ.Map(x) is Dest.Unmap(0.5); a degenerate destination unmaps everything to its Min; no inverse law there",
 		"Unmap outside [0,1] of a clamping scale is undefined (scale.Quantitative) and not judged; a clamping Log may return NaN or a confined value for zero/wrong-sign x",
 		"NewLog is exercised with finite arguments only")
 	r.Gate("domain-reassigned-after-construction", "Linear:reversed", "Log:reversed", "Log:negative", "Log:negative-reversed",
@@ -710,7 +897,10 @@ func c16Run(r *mon.Run) {
 		"Linear:clamp-low", "Linear:clamp-high", "Log:clamp-low", "Log:clamp-high",
 		"Linear:beyond-domain", "Log:beyond-domain", "Linear:unmap-beyond-[0,1]", "Log:unmap-beyond-[0,1]",
 		"Linear:at-Min", "Linear:at-Max", "Log:at-Min", "Log:at-Max",
-		"Log:x=0", "Log:x-wrong-sign", "Log:via-NewLog",
+		"Log:x=0", "Log:x-wrong-sign", "Log:via-NewLog", "Log:base-not-10",
+		"Log:x-near-MaxFloat64", "Log:x-near-smallest-normal", "Log:x-subnormal",
+		"Log:unresolvable-but-separated", "Log:narrow-at-Min", "Log:narrow-at-Max",
+		"qq:src-degenerate", "qq:dest-degenerate", "qq:both-degenerate", "newlog-accept:base-not-2-or-10",
 		"qq:Linear->Linear", "qq:Linear->Log", "qq:Log->Linear", "qq:Log->Log", "qq:clamp-active", "qq:beyond-domain", "qq:reversed",
 		"newlog-reject:base<2", "newlog-reject:base=1", "newlog-reject:min=0", "newlog-reject:max=0", "newlog-reject:straddles-0",
 		"newlog-accept:base=2", "newlog-accept:negative", "newlog-accept:reversed-args")
@@ -736,28 +926,49 @@ func c16Run(r *mon.Run) {
 	r.Parallel("log", r.Pick(6000, 60000), func(w *mon.W, i int) {
 		rng := w.Rng
 		min, max := c16Domain(rng, i, true)
-		sc := c16Scale{Log: true, Min: mon.F(min), Max: mon.F(max), Clamp: (i/8)%2 == 1, How: rng.Intn(7)}
+		sc := c16Scale{Log: true, Min: mon.F(min), Max: mon.F(max), Clamp: (i/8)%2 == 1, How: rng.Intn(7), Base: c16PickBase(rng)}
 		xs := c16Points(rng, true, min, max, 100)
 		s := math.Copysign(1, min)
 		xs = append(xs, s*c16ClipX(rng.LogUniform(1e-14, 1e14)), s*1e-14, s*1e14,
-			0, math.Copysign(0, -1), -min, -max, -s*c16Mag(rng), -s*rng.Pick(1e-14, 1e14))
+			0, math.Copysign(0, -1), -min, -max, -s*c16Mag(rng), -s*rng.Pick(1e-14, 1e14, math.MaxFloat64, math.SmallestNonzeroFloat64))
+		// far from the domain (judged when within 100 widths in ln|x|): near
+		// the largest finite number, near the smallest normal one, subnormal
+		xs = append(xs, s*rng.LogUniform(1e-300, 1e300),
+			s*rng.Pick(math.MaxFloat64, math.MaxFloat64/2, 1e308, 1e300*rng.LogUniform(1, 1e8)),
+			s*rng.Pick(c16MinNormal, math.Nextafter(c16MinNormal, 1), 2*c16MinNormal, 1e-308*rng.LogUniform(3, 1e8)),
+			s*rng.Pick(math.SmallestNonzeroFloat64, math.Nextafter(c16MinNormal, 0), c16Subnormal(rng), c16Subnormal(rng)))
 		c16Judge(w, c16Case{Kind: "scale", A: sc, Xs: mon.Fs(xs), Ys: mon.Fs(ys(rng))})
 	})
 
 	r.Parallel("qq", r.Pick(4000, 40000), func(w *mon.W, i int) {
 		rng := w.Rng
 		kinds := []int{0, 1, 2, 5, 6, 7, 0, 6}
-		mk := func(isLog, clamp bool) c16Scale {
+		mk := func(isLog, clamp, deg bool) c16Scale {
 			min, max := c16Domain(rng, kinds[rng.Intn(len(kinds))], isLog)
 			for min == max {
 				min, max = c16Domain(rng, 0, isLog)
 			}
-			return c16Scale{Log: isLog, Min: mon.F(min), Max: mon.F(max), Clamp: clamp, How: rng.Intn(7)}
+			if deg {
+				min, max = c16Domain(rng, 4, isLog)
+			}
+			return c16Scale{Log: isLog, Min: mon.F(min), Max: mon.F(max), Clamp: clamp, How: rng.Intn(7), Base: c16PickBase(rng)}
 		}
-		S := mk(i&1 == 1, i&4 == 4)
-		D := mk(i&2 == 2, i&8 == 8)
-		xs := c16Points(rng, S.Log, float64(S.Min), float64(S.Max), 4)
-		ps := c16Points(rng, D.Log, float64(D.Min), float64(D.Max), 4)
+		// 3 of 16 blocks of 16 cases: degenerate source, destination, both
+		blk := (i / 16) % 16
+		S := mk(i&1 == 1, i&4 == 4, blk == 0 || blk == 2)
+		D := mk(i&2 == 2, i&8 == 8, blk == 1 || blk == 2)
+		pts := func(sc c16Scale) []float64 {
+			min, max := float64(sc.Min), float64(sc.Max)
+			xs := c16Points(rng, sc.Log, min, max, 4)
+			if min == max {
+				// every valid input of a degenerate scale maps to 0.5
+				s := math.Copysign(1, min)
+				xs = append(xs, s*c16Mag(rng), s*c16Mag(rng), min*rng.Uniform(0.5, 2), s*rng.LogUniform(1e-300, 1e300), -s*c16Mag(rng), 0)
+			}
+			return xs
+		}
+		xs := pts(S)
+		ps := pts(D)
 		c16Judge(w, c16Case{Kind: "qq", A: S, B: &D, Xs: mon.Fs(xs), Ys: mon.Fs(ps)})
 	})
 
@@ -788,6 +999,17 @@ func c16Run(r *mon.Run) {
 		}
 		c16Judge(w, c)
 	})
+}
+
+func c16PickBase(rng *mon.Rand) int { return rng.PickI(2, 3, 5, 10, 16) }
+
+// c16Subnormal draws a positive subnormal number, log-uniform in magnitude.
+func c16Subnormal(rng *mon.Rand) float64 {
+	bits := rng.Uint64() & (1<<52 - 1) >> uint(rng.Intn(52))
+	if bits == 0 {
+		bits = 1
+	}
+	return math.Float64frombits(bits)
 }
 
 func c16ClipX(v float64) float64 {
